@@ -1,0 +1,41 @@
+//go:build verif
+
+package timex
+
+import (
+	"sync/atomic"
+	"time"
+)
+
+// Use the long enough past time as start time, in case timex.Now() - lastTime equals 0.
+var initTime = time.Now().AddDate(-1, -1, -1)
+
+// verifClock, when set, replaces the wall clock behind Now and Since.
+// Only compiled with the verif build tag; used by runtime-verification harnesses.
+var verifClock atomic.Pointer[func() time.Duration]
+
+// VerifSetClock installs fn as the source of Now/Since; nil restores the wall clock.
+func VerifSetClock(fn func() time.Duration) {
+	if fn == nil {
+		verifClock.Store(nil)
+		return
+	}
+	verifClock.Store(&fn)
+}
+
+// Now returns a relative time duration since initTime, which is not important.
+// The caller only needs to care about the relative value.
+func Now() time.Duration {
+	if fn := verifClock.Load(); fn != nil {
+		return (*fn)()
+	}
+	return time.Since(initTime)
+}
+
+// Since returns a diff since given d.
+func Since(d time.Duration) time.Duration {
+	if fn := verifClock.Load(); fn != nil {
+		return (*fn)() - d
+	}
+	return time.Since(initTime) - d
+}
